@@ -272,6 +272,7 @@ void __cyg_profile_func_exit(void *fn, void *site) { (void)fn; (void)site; }
 
 void preempt_reset(int pct_d)
 {
+	g_hook_calls = g_hook_yields = 0;      /* part of the trace: must start from 0 in every run */
 	g_countdown = 1;
 	g_lowprio = 0;
 	g_sim.pct_left = pct_d;
